@@ -23,4 +23,8 @@ SlsCmds ==
      Cmd("push", 0, 1, ""), Cmd("push", 0, 2, ""), Cmd("pop", 0, 1, ""), Cmd("pop", 0, 2, ""),
      Cmd("reset", 0, 0, ""), Cmd("solve", 0, 0, ""), Cmd("get_value", 0, 0, ""), Cmd("get_model", 0, 0, ""),
      Cmd("is_sat", 4, 0, ""), Cmd("is_valid", 5, 0, ""), Cmd("is_unsat", 4, 0, "")}
+\* declaration scoping of C17: terms 1 and 3 share the symbols p, x, y; 2 uses q, b
+SlsDeclCmds ==
+    {Cmd("assert", 1, 0, ""), Cmd("assert", 2, 0, ""), Cmd("assert", 3, 0, ""),
+     Cmd("push", 0, 1, ""), Cmd("push", 0, 2, ""), Cmd("pop", 0, 1, ""), Cmd("pop", 0, 2, "")}
 =============================================================================
